@@ -1,4 +1,5 @@
 import Autog.Lemmas.ScaleBase
+import Autog.Lemmas.ScaleSC
 import Autog.Properties.C03
 import Autog.Model.Phase5
 /-! # C17 — unit independence (scale equivariance)
@@ -9,7 +10,10 @@ import Autog.Model.Phase5
     `placeFrom_scale`, `layerW_scale`, `valign_scale`, `assignY_scale` for every factor. The theorems are about the model
     functions the keys `T:phase4-valign`, `T:assignY` compare with the real code.
     PackRight likewise (`C17_packright_scale`).
-    PARTIAL: SinkColoring, Brandes–Köpf and the routers are decided by exact comparison at 2^k (k ∈ −3..6) on
+    SinkColoring, the default positioner, as a whole (`C17_sinkcoloring_scale`): block building (`setColor`, the block widths),
+    the initial coordinates and every round of the `placeBlock` fixpoint iteration commute with the scaling, for every c > 0, every
+    state and every fuel; the number of rounds is the same, and the run on the scaled state fails exactly when the original fails.
+    PARTIAL: Brandes–Köpf and the composition of the routers are decided by exact comparison at 2^k (k ∈ −3..6) on
     generated inputs plus the `Numbers` facts (the only float literals in phases 4/5 are 0, 2 and the B&K median constants;
     no size or spacing is read in phases 1–3). -/
 
@@ -217,5 +221,23 @@ theorem C17_valign_list_scale : type_of% @valign_scale := @valign_scale
 theorem C17_assignY_scale : type_of% @assignY_scale := @assignY_scale
 
 example : xsOf (execVerticalAlign (4 * 5) (scaleG 4 exG)) ((scaleG 4 exG).layers.toList[1]!) = [0, 20, 80] := by decide +kernel
+
+
+/-- **C17, SinkColoring (the default positioner), the whole positioner**: with every node size multiplied by c > 0 and NodeSpacing
+    c·ns, `execSinkColoring` computes exactly c times the coordinates (same blocks, same number of `placeBlock` rounds, same
+    failures) — for every state, not only properly layered ones -/
+theorem C17_sinkcoloring_scale : type_of% @scCoords_scale := @scCoords_scale
+theorem C17_sinkcoloring_blocks_scale : type_of% @scBlocks_scale := @scBlocks_scale
+theorem C17_sinkcoloring_round_scale : type_of% @placeBlockRound_scale := @placeBlockRound_scale
+theorem C17_sinkcoloring_plan_scale : type_of% @scPlan_scale := @scPlan_scale
+
+/-- … stated for the function the key `T:phase4-sink` compares with the real code -/
+theorem C17_sinkcoloring_exec_scale (c ns : Rat) (hc : 0 < c) (g : G) :
+    execSinkColoring (c * ns) (scaleG c g) =
+      (scCoords ns g).map fun r => (scWrite (scaleG c g) (r.1.map (c * ·)), r.2) := by
+  rw [execSinkColoring_coords, scCoords_scale c ns hc]
+  cases scCoords ns g with
+  | error e => rfl
+  | ok r => rfl
 
 end Autog
